@@ -8,16 +8,16 @@ import (
 )
 
 type c10Req struct {
-	id         string
-	prio       float64
-	seq        int
-	arrivedAt  int64
-	ttl        int64
-	done       bool
-	ok         bool
-	doneAt     int64
-	waited     bool // had to wait (was not released on arrival)
-	fullAtArr  bool
+	id        string
+	prio      float64
+	seq       int
+	arrivedAt int64
+	ttl       int64
+	done      bool
+	ok        bool
+	doneAt    int64
+	waited    bool // had to wait (was not released on arrival)
+	fullAtArr bool
 }
 
 type c10H struct {
@@ -106,6 +106,7 @@ func VerifC10Steps() {
 	q := NewInMemoryDelayedPriorityQueue(QueueKey{RemedyName: "r", Strategy: Strategy{WindowQuota: quota, WindowSize: time.Second}}, verifClock{}, logging.ContextLogger{})
 	verifDrain()
 	n := 0
+	pendingRollover := false
 	for st := 0; st < S; st++ {
 		if verifChoose(fmt.Sprintf("ev%d", st), 2) == 0 {
 			verifAssume(n < int(verifParam("maxReqs", 4)))
@@ -119,12 +120,23 @@ func VerifC10Steps() {
 			if r.done && r.ok {
 				verifReach("released-on-arrival")
 			}
-			h.check(quota, maxQ, false)
+			h.check(quota, maxQ, pendingRollover)
+			pendingRollover = false
 		} else {
 			before := verifNow() / sec
-			verifAdvance([]int64{400 * sec / 1000, 1100 * sec / 1000}[verifChoose(fmt.Sprintf("dt%d", st), 2)])
+			dt := []int64{400 * sec / 1000, 1100 * sec / 1000}[verifChoose(fmt.Sprintf("dt%d", st), 2)]
+			if verifParam("lateTimers", 0) == 1 && verifBool(fmt.Sprintf("late%d", st)) {
+				// the goroutines whose timers fire now (window rollover, TTLs) are scheduled late:
+				// they run only after the next event
+				verifAdvanceLazy(dt)
+				pendingRollover = pendingRollover || verifNow()/sec > before
+				verifReach("time")
+				continue
+			}
+			verifAdvance(dt)
 			verifDrain()
-			h.check(quota, maxQ, verifNow()/sec > before)
+			h.check(quota, maxQ, pendingRollover || verifNow()/sec > before)
+			pendingRollover = false
 			verifReach("time")
 		}
 	}
